@@ -228,7 +228,8 @@ func snapshotReaders(p *Prog) []string {
 				hasPoint = true
 			}
 		}
-		if !hasStore || !hasPoint || sig.Results().Len() != 1 || !strings.HasSuffix(sig.Results().At(0).Type().String(), "internal/model.File") {
+		_ = hasPoint // the snapshot point may travel as a pointer, or inside a small value type
+		if !hasStore || sig.Results().Len() != 1 || !strings.HasSuffix(sig.Results().At(0).Type().String(), "internal/model.File") {
 			continue // a reader returns the version(s) it selected
 		}
 		selects := false
@@ -350,6 +351,16 @@ func c02DispatchTable(p *Prog, fi *FuncInfo, readers ...string) ([]dispatchRow, 
 								} else {
 									store = types.ExprString(a)
 								}
+							case !strings.HasSuffix(ts, "sequence.Seq") && !isNilIdent(info, a) && !strings.HasSuffix(ts, "string"):
+								// a small value type carrying the optional point (seqLimit{seq, set}): set = a true flag
+								if v, err := env.Eval(a); err == nil && v != nil && v.Fields != nil {
+									point = "latest"
+									for _, fv := range v.Fields {
+										if fv != nil && fv.C != nil && fv.C.Kind() == constant.Bool && constant.BoolVal(fv.C) {
+											point = "snapshot-point"
+										}
+									}
+								}
 							case strings.HasSuffix(ts, "sequence.Seq") || isNilIdent(info, a):
 								v, err := env.Eval(a)
 								switch {
@@ -449,7 +460,39 @@ func c02Dispatch(p *Prog, r *Report) {
 				}
 			}
 		}
+		// ... or the point travels in a small value type with a "set" flag (receiver or parameter of the selecting
+		// function): the flag plays the part of "pointer is not nil"
+		var setFlag *types.Var
 		if bsObj == nil {
+			for _, o := range paramObjs(fi) {
+				if o == nil {
+					continue
+				}
+				t := o.Type()
+				if pt, ok := t.(*types.Pointer); ok {
+					t = pt.Elem()
+				}
+				st, ok := t.Underlying().(*types.Struct)
+				if !ok {
+					continue
+				}
+				var flag *types.Var
+				hasSeq := false
+				for i := 0; i < st.NumFields(); i++ {
+					ft := st.Field(i).Type()
+					if strings.HasSuffix(ft.String(), "sequence.Seq") {
+						hasSeq = true
+					}
+					if bt, ok := ft.Underlying().(*types.Basic); ok && bt.Kind() == types.Bool {
+						flag = st.Field(i)
+					}
+				}
+				if hasSeq && flag != nil {
+					setFlag = flag
+				}
+			}
+		}
+		if bsObj == nil && setFlag == nil {
 			r.Undecided("C02.b", k, p.pos(fi.Decl), "no snapshot-point parameter")
 			continue
 		}
@@ -460,14 +503,31 @@ func c02Dispatch(p *Prog, r *Report) {
 				if !from.IsCond {
 					return false
 				}
-				ex := isNilCompare(info, from.Ast.(ast.Expr))
-				if ex == nil || objOf(info, ex) != bsObj {
-					return false
-				}
-				be := ast.Unparen(from.Ast.(ast.Expr)).(*ast.BinaryExpr)
 				isNilLabel := 1
-				if be.Op.String() == "!=" {
+				if setFlag != nil {
+					// if l.set { ... }: the true edge is "a point is given"
+					ce := ast.Unparen(from.Ast.(ast.Expr))
+					neg := false
+					if u, ok := ce.(*ast.UnaryExpr); ok && u.Op == token.NOT {
+						ce, neg = ast.Unparen(u.X), true
+					}
+					sel, ok := ce.(*ast.SelectorExpr)
+					if !ok || info.Uses[sel.Sel] != setFlag {
+						return false
+					}
 					isNilLabel = 2
+					if neg {
+						isNilLabel = 1
+					}
+				} else {
+					ex := isNilCompare(info, from.Ast.(ast.Expr))
+					if ex == nil || objOf(info, ex) != bsObj {
+						return false
+					}
+					be := ast.Unparen(from.Ast.(ast.Expr)).(*ast.BinaryExpr)
+					if be.Op.String() == "!=" {
+						isNilLabel = 2
+					}
 				}
 				if nilCase {
 					return e.Label != isNilLabel
